@@ -670,7 +670,7 @@ spif_str_splice(spif_str_t self, spif_stridx_t idx, spif_stridx_t cnt, spif_str_
     REQUIRE_RVAL(idx >= 0, FALSE);
     REQUIRE_RVAL(idx < self->len, FALSE);
     if (cnt < 0) {
-        cnt = idx + self->len + cnt;
+        cnt = self->len - idx + cnt;
     }
     REQUIRE_RVAL(cnt >= 0, FALSE);
     REQUIRE_RVAL(cnt <= (self->len - idx), FALSE);
@@ -710,7 +710,7 @@ spif_str_splice_from_ptr(spif_str_t self, spif_stridx_t idx, spif_stridx_t cnt, 
     REQUIRE_RVAL(idx >= 0, FALSE);
     REQUIRE_RVAL(idx < self->len, FALSE);
     if (cnt < 0) {
-        cnt = idx + self->len + cnt;
+        cnt = self->len - idx + cnt;
     }
     REQUIRE_RVAL(cnt >= 0, FALSE);
     REQUIRE_RVAL(cnt <= (self->len - idx), FALSE);
